@@ -6,6 +6,7 @@ import (
 	"fmt"
 	"io"
 	"os"
+	"path/filepath"
 	"sync"
 
 	"github.com/ipfs/go-cid"
@@ -95,6 +96,10 @@ func (c c16Case) build(s *store.Store, ls *ipld.LinkSystem) (ipld.Link, uint64, 
 		}
 		return builder.BuildUnixFSDirectory(links, ls)
 	case "recursive":
+		if len(c.Names) == 1 {
+			// the import starts at a regular file / empty file / symlink
+			return builder.BuildUnixFSRecursive(filepath.Join(filepath.Dir(recursiveFixture()), "roots", c.Names[0]), ls)
+		}
 		return builder.BuildUnixFSRecursive(recursiveFixture(), ls)
 	case "quick":
 		var l ipld.Link
@@ -282,7 +287,9 @@ func runC16(r *core.Run) {
 		c16Case{Kind: "symlink", SplitRead: true},
 		c16Case{Kind: "plain", Names: u[:3], SplitRead: true},
 		c16Case{Kind: "sharded", Fanout: 8, Names: u[:4], SplitRead: true})
-	cases = append(cases, c16Case{Kind: "sharded", Fanout: 256, Names: u}, c16Case{Kind: "recursive"}, c16Case{Kind: "quick"}, c16Case{Kind: "auto-large"})
+	cases = append(cases, c16Case{Kind: "sharded", Fanout: 256, Names: u}, c16Case{Kind: "recursive"}, c16Case{Kind: "quick"}, c16Case{Kind: "auto-large"},
+		c16Case{Kind: "recursive", Names: []string{"two-chunks.bin"}}, c16Case{Kind: "recursive", Names: []string{"small.txt"}},
+		c16Case{Kind: "recursive", Names: []string{"empty"}}, c16Case{Kind: "recursive", Names: []string{"link"}})
 	var execs int64
 	maxDepth := 0
 	for i, c := range cases {
